@@ -56,9 +56,11 @@ theorem const_priority_tables :
 
 /-! ### XOR-MAPPED / XOR-PEER / XOR-RELAYED addresses -/
 
-/-- **xor_addr_roundtrip**: for every IPv4/IPv6 socket address and every 96-bit transaction id the
-decoder's `parse_xor_address` inverts the encoder's XOR-address value, and the encoder emits exactly
-that value as a TLV of the requested type. -/
+/-- **xor_addr_roundtrip**: `xorValue` is the RFC 5389 §15.2 value written independently in `StunRfc.lean`
+(family byte, X-Port = port ⊕ 0x2112, X-Address = address ⊕ (magic cookie ‖ transaction id) as ONE xor).
+For every IPv4/IPv6 socket address and every 96-bit transaction id the decoder's `parse_xor_address`
+reads that value back to the address, and the encoder emits exactly that value as a TLV of the requested
+type. (An encoder and decoder that agreed on a wrong transformation would fail the second / first part.) -/
 theorem xor_addr_roundtrip (a : Addr) (tx : Bytes) (ha : a.Wf) (htx : tx.length = 12) :
     parseXor (xorValue a tx) tx = some a ∧
     ∀ buf t, appendXor buf t a tx = appendRaw buf t (xorValue a tx) :=
@@ -131,6 +133,51 @@ theorem stun_decode_encode (P : Prims) (m : Msg) (key : Option Bytes) (fp : Bool
     (hok : ∀ a ∈ m.attrs, a.Ok) (hs : Sized m) :
     decode (encode P m key fp) = .ok (m.attrs.foldl applyAttr (emptyDecoded m.cls m.method m.tx)) :=
   decode_encode P m key fp htx hok hs
+
+/-- **foreign_message_decodes**: a message built by ANY implementation — any 16-bit message type whose method /
+class the decoder knows, ANY magic-cookie bytes (the decoder does not check them), any list of attributes
+of any type with any padding bytes, in any order, including unknown attributes and attributes after
+MESSAGE-INTEGRITY / FINGERPRINT — decodes to the fold of the per-attribute readings over an empty result with
+that method, class and transaction id; the RFC 5389 §6 type values of the 7 × 4 method/class pairs are
+recognised; and each attribute reads as the RFC says: XOR-MAPPED / XOR-PEER / XOR-RELAYED give the address,
+ERROR-CODE gives class·100 + number (reserved bits ignored), REALM / NONCE / DATA / LIFETIME / USE-CANDIDATE
+give their value, every other attribute is ignored. -/
+theorem foreign_message_decodes (mt : Nat) (cookie tx : Bytes) (tvs : List (Nat × Bytes × Bytes)) (m : Method) (c : Class)
+    (hmt : mt < 65536) (hcookie : cookie.length = 4) (htx : tx.length = 12)
+    (hm : decMethod (mt &&& stunDecMethodMask) = some m) (hc : decClass (mt &&& stunDecClassMask) = some c)
+    (hb : ∀ p ∈ tvs, p.1 < 65536 ∧ p.2.1.length < 65536 ∧ p.2.2.length = pad4 p.2.1.length)
+    (hlen : (flatP tvs).length < 65536) :
+    decode (be16 mt ++ be16 (flatP tvs).length ++ cookie ++ tx ++ flatP tvs) =
+      .ok (tvs.foldl (fun d p => attrStep tx d p.1 p.2.1) (emptyDecoded c m tx)) ∧
+    (∀ (m' : Method) (c' : Class),
+      decMethod (rfcMsgType (rfcMethodNumber m') (rfcClassNumber c') &&& stunDecMethodMask) = some m' ∧
+      decClass (rfcMsgType (rfcMethodNumber m') (rfcClassNumber c') &&& stunDecClassMask) = some c') :=
+  ⟨foreign_decode mt cookie tx tvs m c hmt hcookie htx hm hc hb hlen,
+   fun m' c' => ⟨(dec_rfcMsgType m' c').1, (dec_rfcMsgType m' c').2.1⟩⟩
+
+/-- the per-attribute readings used by `foreign_message_decodes` (XOR-RELAYED-ADDRESS and ERROR-CODE are
+the arms only another implementation can trigger) -/
+theorem foreign_attribute_readings (tx : Bytes) (d : Decoded) (htx : tx.length = 12) :
+    (∀ a : Addr, a.Wf → attrStep tx d 0x0020 (xorValue a tx) = { d with mapped := some a }) ∧
+    (∀ a : Addr, a.Wf → attrStep tx d 0x0012 (xorValue a tx) = { d with peer := some a }) ∧
+    (∀ a : Addr, a.Wf → attrStep tx d 0x0016 (xorValue a tx) = { d with relayed := some a }) ∧
+    (∀ (r0 r1 cls num : UInt8) (reason : Bytes), attrStep tx d 0x0009 (r0 :: r1 :: cls :: num :: reason) =
+        { d with errorCode := some (cls.toNat % 8 * 100 + num.toNat) }) ∧
+    (∀ v, validUtf8 v = true → attrStep tx d 0x0014 v = { d with realm := some v }) ∧
+    (∀ v, validUtf8 v = true → attrStep tx d 0x0015 v = { d with nonce := some v }) ∧
+    (∀ v, attrStep tx d 0x0013 v = { d with data := some v }) ∧
+    (∀ v, v < 4294967296 → attrStep tx d 0x000D (be32 v) = { d with lifetime := some v }) ∧
+    (∀ v, attrStep tx d 0x0025 v = { d with useCandidate := true }) ∧
+    (∀ t v, t ∉ [0x0020, 0x0012, 0x0016, 0x0009, 0x0014, 0x0015, 0x0013, 0x000D, 0x0025] → attrStep tx d t v = d) :=
+  foreign_attr_readings tx d htx
+
+/-- non-vacuity: an Allocate error response 438 with reserved bits set, an unknown attribute with non-zero
+padding, and an XOR-RELAYED-ADDRESS after it meets the hypotheses -/
+example : let tvs : List (Nat × Bytes × Bytes) :=
+      [(0x0009, [0xff, 0xff, 0xfc, 38, 33], [7, 7, 7]), (0xC057, [1], [9, 9, 9]), (0x0016, xorValue (.v4 [10, 0, 0, 1] 5) (zeros 12), [])]
+    (∀ p ∈ tvs, p.1 < 65536 ∧ p.2.1.length < 65536 ∧ p.2.2.length = pad4 p.2.1.length) ∧ (flatP tvs).length < 65536 ∧
+    decMethod (0x0113 &&& stunDecMethodMask) = some .allocate ∧ decClass (0x0113 &&& stunDecClassMask) = some .error := by
+  decide
 
 /-- reading of `stun_decode_encode` for one field: a message whose only XOR-MAPPED-ADDRESS is `a` decodes
 with `xor_mapped_address = Some(a)` (same for the other exposed fields). -/
